@@ -89,6 +89,7 @@ func replay(r *vlib.Run, raw json.RawMessage) {
 		Kind string `json:"kind"`
 	}
 	_ = json.Unmarshal(raw, &k)
+	r.Sample(map[string]any{"replayed_case_kind": k.Kind})
 	switch k.Kind {
 	case "hist":
 		var c histCase
@@ -107,7 +108,7 @@ func replay(r *vlib.Run, raw json.RawMessage) {
 		r.Fatalf("replay: unknown case kind %q", k.Kind)
 	}
 	if r.Violations() == 0 {
-		fmt.Println("replay: no violation reproduced")
+		fmt.Println("replay: no unlisted violation (a reproduced known finding is reported by its KNOWN-FINDING line above)")
 	}
 }
 
